@@ -9,7 +9,7 @@ RULE = ("ammrt: L1 round trips on the real message server over pools of assorted
         "ratio-shifting rates in [0,1]: swap there-and-back, add (one-sided / nearly symmetric / arbitrary) then remove the units received, "
         "backing per unit across every message with ratio shifting off; measured amounts judged by Spec.C04 (swapBackOK, addRemoveOK, backingOK) "
         "and the state compared with the model after every message; every run opens with pools of few, valuable units (emptied to 1..8 units, refilled by "
-        "fee-rate-1 swaps to ~10^24 per side) into which newcomers add 0..3 base units; non-trivial = a distinct message that succeeded")
+        "fee-rate-1 swaps to ~10^24 per side) into which newcomers add 0..3 base units and from which the holder removes by basis points (claims of a fraction of a unit); non-trivial = a distinct message that succeeded")
 TRUSTED_BASE = [
     "Lean 4.33.0 kernel; axioms propext, Classical.choice, Quot.sound (audited per theorem on every run)",
     "hand-written Lean model of the clp calculators and handlers, tied by differential execution",
